@@ -1,2 +1,40 @@
-"""C06 - see codec_props.py"""
-from .codec_props import run_prop as run
+"""C06 - truncated input is reported as insufficient data at every cut point.
+One-shot clause: codec_props.plan_c06; streaming clause: below."""
+import random
+
+from .. import core, tlc, codec_pipeline as P, stream_pipeline as SP
+from . import codec_props
+
+CLAUSES = {'Crash', 'SpuriousError', 'ObjectNotDelivered', 'EosNotRaised', 'NotStopped', 'UnderrunNotReported',
+           'WrongObject', 'PollAfterEnd'}
+GEN = dict(kinds=['int', 'octs', 'bits', 'bool', 'null', 'utf8', 'oid'], tagnums=[0, 31], classes=[2], maxstack=1,
+           shapes=['scalar', 'seqof', 'choice', 'deep'], pool=1,
+           modes=['der', 'cer', 'ber_indef', 'ber_indef_c1', 'v_indefdef', 'v_long'])
+
+
+def run(ctx):
+    codec_props.run_prop(ctx)
+    max_len = 10 if ctx.quick else 13
+    with tlc.Scratch('c06s') as sc:
+        cases = P.generate(ctx, sc, GEN, name='MC_gen_streams', invariants=['TypeOK', 'ProperPrefixIsShort', 'OneTLV'])
+        streams = SP.pick_streams(cases, max_len, 12 if ctx.quick else 36, ctx.seed, min_items=1, max_items=2)
+        lay = set()
+        for st in streams[:3]:
+            for k in (1, len(st.data) - 1):
+                comp = [e for e in st.ends if e <= k]
+                lay.add((tuple(comp), k - (comp[-1] if comp else 0), True))
+        SP.check_refinement(ctx, sc, sorted(lay)[:4])
+
+        def jobs_of(st):
+            for k in range(1, len(st.data)):
+                if k in st.ends:
+                    continue            # a clean end between items is not a truncation
+                for kind, parts, cwl, idle in SP.schedules_for(st, ['K3', 'K4'], truncate_at=k):
+                    if idle:
+                        continue
+                    yield kind, parts, cwl, idle, k
+        traces, meta = SP.run_streams(ctx, streams, jobs_of)
+        SP.finish_streams(ctx, sc, traces, meta, clauses=CLAUSES, name='strace_trunc')
+        ctx.rule += ('; streaming clause: every cut point strictly inside an item x every arrival partition of the prefix x '
+                     '{closed together with / after the last octet} x kinds {K3, K4}, judged by spec/Trace_Stream.tla '
+                     '(underrun while open, end-of-stream error once closed)')
